@@ -65,8 +65,9 @@ type Component struct {
 	// Run applies nothing to the environment (the driver did), builds the options from the
 	// picked alternatives, calls the real constructor under recover and reads the effective values.
 	Run func(ch Choice, alt func(si, src int) *Alt) Result
-	// Relax may widen the accept sets for documented cross-setting constraints.
-	Relax func(accept [][]int64) [][]int64
+	// Relax may widen the accept sets for documented cross-setting constraints. declared[si] is
+	// every value any present source of setting si declares, plus the default.
+	Relax func(accept, declared [][]int64) [][]int64
 }
 
 type dim struct{ si, src int }
@@ -142,7 +143,16 @@ func (x *X) Accept(ch Choice) [][]int64 {
 		out[si] = rec(0)
 	}
 	if x.C.Relax != nil {
-		out = x.C.Relax(out)
+		decl := make([][]int64, len(x.C.Settings))
+		for si, s := range x.C.Settings {
+			decl[si] = []int64{s.Default}
+			for src := range s.Sources {
+				if a := x.alt(ch, si, src); a.Present && a.Provides {
+					decl[si] = union(decl[si], a.Value)
+				}
+			}
+		}
+		out = x.C.Relax(out, decl)
 	}
 	return out
 }
